@@ -77,6 +77,9 @@ def load(scenario):
     for v in HE.GEN:
         if v["name"] == scenario:
             return HE.gen_scenario(dict(v, ep_len=64))
+        if scenario.startswith(v["name"] + "+seed="):
+            # the scenario file itself configures the seed that reset() is later called with
+            return HE.gen_scenario(dict(v, ep_len=64, seed=int(scenario.split("=")[1])))
     raise KeyError(scenario)
 
 
